@@ -49,6 +49,7 @@ type unit struct {
 	convErr    string
 	dropped    bool
 	standalone bool
+	static     bool // converted and compared with the model only (not part of a program)
 }
 
 type scopeInfo struct {
@@ -98,19 +99,35 @@ func variadic(f func(xs ...int) int) int { return f(1, 2, 3) }
 func anyOf(v interface{})               { fmt.Printf("any %T\n", v) }
 `
 
-func scopeUnit(r *vh.Rand, idx int) *unit {
+// scopeUnit: behav units are compiled and run inside a program; they import under alias names
+// only (a local variable called like a real package makes the XGo compiler rename the import in
+// the merged Go file, and gogen then misses references - a compiler defect independent of the
+// conversion).  Static units (any import form) are only converted and compared with the model.
+func scopeUnit(r *vh.Rand, idx int, behav bool) *unit {
 	g := &sgen{r: r, unit: idx, labels: map[string]bool{}}
 	// imports of the file
-	g.imports = []imp{{"fmt", "fmt"}}
-	switch r.Intn(5) {
-	case 0:
+	if behav {
 		g.imports = []imp{{"f", "fmt"}}
-	case 1:
-		g.imports = append(g.imports, imp{"strings", "strings"})
-	case 2:
-		g.imports = append([]imp{{"strconv", "strconv"}}, g.imports...)
-	case 3:
-		g.imports = append(g.imports, imp{"f", "fmt"}, imp{"strings", "strings"})
+		switch r.Intn(4) {
+		case 0:
+			g.imports = append(g.imports, imp{"st", "strings"})
+		case 1:
+			g.imports = append([]imp{{"sc", "strconv"}}, g.imports...)
+		case 2:
+			g.imports = append(g.imports, imp{"f2", "fmt"})
+		}
+	} else {
+		g.imports = []imp{{"fmt", "fmt"}}
+		switch r.Intn(5) {
+		case 0:
+			g.imports = []imp{{"f", "fmt"}}
+		case 1:
+			g.imports = append(g.imports, imp{"strings", "strings"})
+		case 2:
+			g.imports = append([]imp{{"strconv", "strconv"}}, g.imports...)
+		case 3:
+			g.imports = append(g.imports, imp{"f", "fmt"}, imp{"strings", "strings"})
+		}
 	}
 	grouped := r.Bool()
 	type fn struct {
@@ -194,6 +211,10 @@ func scopeUnit(r *vh.Rand, idx int) *unit {
 		}
 		b.WriteString("\n")
 	}
+	// callees are declared before their callers (the compiler loads a function declared later
+	// inside the scope of the first caller - a compiler defect independent of the conversion)
+	fns = append(append([]fn{}, fns[1:]...), fns[0])
+	last := len(fns) - 1
 	var funcsCode []string
 	for i, f := range fns {
 		hdr := "func "
@@ -212,9 +233,9 @@ func scopeUnit(r *vh.Rand, idx int) *unit {
 		}
 		fmt.Fprintf(&b, "%s {\n", hdr)
 		f.body.render(&b, "\t")
-		if i == 0 {
+		if i == last {
 			// the unit function calls its helpers and the keep function
-			for _, h := range fns[1:] {
+			for _, h := range fns[:last] {
 				switch {
 				case h.recv != "":
 					fmt.Fprintf(&b, "\tnewT(\"rv\").%s()\n", h.name)
@@ -241,7 +262,7 @@ func scopeUnit(r *vh.Rand, idx int) *unit {
 		imps[i] = im.name + "=" + im.path
 	}
 	caseLine := fmt.Sprintf("c25scope\t%s\t-\t-\t%s", strings.Join(imps, ","), strings.Join(funcsCode, ";"))
-	return &unit{idx: idx, kind: "scope-tree", name: fmt.Sprintf("u%d", idx), src: b.String(),
+	return &unit{idx: idx, kind: "scope-tree", name: fmt.Sprintf("u%d", idx), src: b.String(), static: !behav,
 		scope: &scopeInfo{caseLine: caseLine, tags: g.tags, imports: g.imports}}
 }
 
@@ -314,8 +335,18 @@ func scopeImpl(u *unit) string {
 		}
 		return true
 	})
-	parts := make([]string, len(u.scope.tags))
-	for i, t := range u.scope.tags {
+	// decisions in the order of the case line (file order of the functions)
+	tags := append([]string{}, u.scope.tags...)
+	pos := map[string]int{}
+	for _, t := range tags {
+		pos[t] = strings.Index(u.scope.caseLine, ":"+t+" ")
+		if pos[t] < 0 {
+			pos[t] = strings.Index(u.scope.caseLine, ":"+t)
+		}
+	}
+	sort.SliceStable(tags, func(i, j int) bool { return pos[tags[i]] < pos[tags[j]] })
+	parts := make([]string, len(tags))
+	for i, t := range tags {
 		d, ok := dec[t]
 		if !ok {
 			d = "MISSING"
@@ -346,7 +377,7 @@ func scopeImpl(u *unit) string {
 }
 
 // function literals that are direct call arguments, in source order (Go original)
-type flitShape struct{ params, results, body string }
+type flitShape struct{ params, results, body, variadic string }
 
 func goFuncLits(src string) ([]flitShape, error) {
 	fset := gotoken.NewFileSet()
@@ -391,7 +422,13 @@ func goFuncLits(src string) ([]flitShape, error) {
 			if len(bs) == 0 {
 				body = "-"
 			}
-			res = append(res, flitShape{fields(fl.Type.Params), fields(fl.Type.Results), body})
+			variadic := "-"
+			for _, fd := range fl.Type.Params.List {
+				if _, ok := fd.Type.(*goast.Ellipsis); ok {
+					variadic = "variadic"
+				}
+			}
+			res = append(res, flitShape{fields(fl.Type.Params), fields(fl.Type.Results), body, variadic})
 		}
 		return true
 	})
@@ -443,6 +480,7 @@ type program struct {
 	mainSrc  func(live []*unit) string // Go source of main.go given the live units
 	extra    map[string]string         // further Go files (name -> src), converted like the others
 	exitCode int
+	noCommon bool // the program consists of main.go (+extra) only
 }
 
 func plainMain(p *program) func(live []*unit) string {
@@ -502,7 +540,9 @@ type built struct {
 func prepare(p *program, o *vh.Out) *built {
 	bt := &built{p: p, origSrcs: map[string]string{}}
 	// the original program always has all units
-	bt.origSrcs["common.go"] = commonGo
+	if !p.noCommon {
+		bt.origSrcs["common.go"] = commonGo
+	}
 	for _, u := range p.units {
 		bt.origSrcs[u.name+".go"] = u.src
 	}
@@ -547,7 +587,10 @@ func prepare(p *program, o *vh.Out) *built {
 			bt.failed = merr
 			return bt
 		}
-		files := map[string]string{"common.xgo": commonX, "main.xgo": mainX}
+		files := map[string]string{"main.xgo": mainX}
+		if !p.noCommon {
+			files["common.xgo"] = commonX
+		}
 		for n, s := range extraX {
 			files[n] = s
 		}
@@ -566,6 +609,11 @@ func prepare(p *program, o *vh.Out) *built {
 				if u.name == m[1] && !u.dropped {
 					u.dropped = true
 					progress = true
+					if !compilesAsXgo(u, commonGo) {
+						// the compiler rejects the ORIGINAL file as well: not caused by the conversion
+						o.Count("unit_rejected_by_compiler_before_conversion")
+						continue
+					}
 					o.Oracle(u.kind, "unit "+u.name+" of "+p.name, "converted file does not compile: "+m[3]+"\n--- original\n"+u.src+"\n--- converted\n"+u.conv)
 				}
 			}
@@ -582,6 +630,13 @@ func prepare(p *program, o *vh.Out) *built {
 	}
 	bt.failed = "too many rounds"
 	return bt
+}
+
+// compilesAsXgo: does the XGo compiler accept the unit's original Go source (as an .xgo file)?
+func compilesAsXgo(u *unit, common string) bool {
+	stub := fmt.Sprintf("package main\n\nfunc main() {\n\tunit%d()\n}\n", u.idx)
+	_, err := compcx.CompileDir(map[string]string{"common.xgo": common, u.name + ".xgo": u.src, "main.xgo": stub})
+	return err == nil
 }
 
 func joinFiles(files map[string]string) []byte {
@@ -622,14 +677,31 @@ func main() {
 	}
 	progs = append(progs, featurePrograms(r.Fork(900000), &nextIdx, f.Seed, f.Tier)...)
 	runPrograms(progs, o, f.Out)
-	lowerCases(r.Fork(800000), o, 60)
+	// static scope units: conversion vs model only
+	nstatic := f.N / 2
+	for i := 0; i < nstatic; i++ {
+		u := scopeUnit(r.Fork(700000+i), 700000+i, false)
+		staticUnit(u, o)
+	}
+	lowerCases(r.Fork(800000), o, 70)
+}
+
+func staticUnit(u *unit, o *vh.Out) {
+	u.conv, u.convErr = convert(u.name+".go", u.src)
+	o.Count("unit_scope-tree-static")
+	if u.convErr != "" {
+		o.Oracle("scope-tree", "unit "+u.name+" (static)", "conversion failed: "+u.convErr+"\n"+u.src)
+		return
+	}
+	o.Case(u.scope.caseLine, scopeImpl(u), len(u.scope.tags) >= 2)
+	lambdaCases(u, o)
 }
 
 func genUnit(r *vh.Rand, idx int, seed uint64) *unit {
 	k := r.Intn(100)
 	var u *unit
-	if k < 45 {
-		u = scopeUnit(r, idx)
+	if k < 40 {
+		u = scopeUnit(r, idx, true)
 	} else {
 		u = templateUnit(r, idx)
 	}
@@ -769,14 +841,15 @@ func lambdaCases(u *unit, o *vh.Out) {
 			impl = got[i]
 		}
 		o.Count("lambda_case")
-		o.Case(fmt.Sprintf("c25lambda\t%s\t%s\t%s\tunit=%s#%d", sh.params, sh.results, sh.body, u.name, i), impl, true)
+		o.Case(fmt.Sprintf("c25lambda\t%s\t%s\t%s\t%s\tunit=%s#%d", sh.params, sh.results, sh.body, sh.variadic, u.name, i), impl, true)
 	}
 }
 
 var identRe = regexp.MustCompile(`x\.([^\s(]+)`)
 
 func lowerCases(r *vh.Rand, o *vh.Out, n int) {
-	names := []string{"Println", "A", "Z9", "already", "_Under", "ÉCOLE", "URL", "X_y", "aB", "Foo", "M", "Ünï"}
+	names := []string{"Println", "A", "Z9", "already", "_Under", "ÉCOLE", "URL", "X_y", "aB", "Foo", "M", "Ünï",
+		"Map", "Range", "Go", "Type", "Func", "Select", "Mapx", "map", "Var", "Chan", "Default", "If", "IF"}
 	for i := 0; i < n; i++ {
 		var name string
 		if i < len(names) {
